@@ -78,7 +78,7 @@ PROPS = {
         "not_covered": ["stale packets of another transfer under the same TOI with different content (length mismatch is only logged)", "MD5 itself", "decompression output"],
     },
     "C04": {
-        "level": "proof", "verus": U("getext", "objrecv", "ringbuffer", "blockwriter", "partition", "receiver"), "kani": KANI_WIRE, "structural": [],
+        "level": "proof", "verus": U("getext", "objrecv", "ringbuffer", "blockwriter", "partition", "decoders", "receiver", "multireceiver", "fdtoti", "expiry"), "kani": KANI_WIRE, "structural": [],
         "technique": "totality contracts: Kani on every datagram up to a stated length for the codecs, Verus (unbounded) for the extension walk, the receiver pipeline, ring and block arithmetic",
         "claim": "every parser returns Ok or Err on every byte string up to the stated datagram length (no panic, no overflow); the unbounded extension walk, "
                  "ObjectReceiver::push and everything below it, the ring buffer and partition arithmetic are panic- and overflow-free for all inputs under "
